@@ -8,6 +8,7 @@ Exact requests (`Rat`): `cosang`, `eucl2`, `gridnn`, `rect`, `convlon`, `maxld`,
 `geodist`, `geocum`, `nbawc`, `maxnbawc`, `geomdd`, `linkdd` (round 3).
 Floating requests (`Float`, answers as IEEE-754 bit patterns): `angdist`,
 `eucld`, `geonn`, `weights`, `awc`.
+Round 5: `cosangf32` — the angular kernel in `Float32` (bit patterns compared); `gridnnf` / `gridnnf32` — `Grid.node_number` in `Float` / `Float32` (decision compared).
 Round 4: `angdist` / `eucld` answer through the object-level models `gridDistance` (a `GeoGrid`
 built from `lat`, `lon`) and `gridEuclideanDistance` (a `Grid` holding an array of shape
 `(d, n)`); exact requests `eucobj2` (object level, squared), `cwd`, `tld`, `georect`. -/
@@ -24,6 +25,9 @@ def showFloats (xs : List Float) : String :=
   if xs.isEmpty then "-" else join (xs.map fun x => toString x.toBits)
 def showFloatMat (m : List (List Float)) : String :=
   if m.isEmpty then "-" else join (m.map showFloats) ";"
+
+/-- single precision: every float32 value is a double, and `toFloat32` is exact on it -/
+def toF32 (r : Rat) : Float32 := (toF r).toFloat32
 
 def trigF : Trig Float where
   sin := Float.sin
@@ -71,10 +75,37 @@ def answer (toks : List String) : String :=
   -- the Euclidean kernel with the identity in place of `sqrt`: the squared distances
   | ["eucl2", d, n, x] =>
       let N := n.toNat!
-      showRatMat (toLists N (euclKernel id (mat (ratMat x)) d.toNat! N))
+      let xs := (ratMat x).toArray.map (·.toArray)
+      let xm : Nat → Nat → Rat := fun k i => (xs.getD k #[]).getD i 0
+      -- beyond 27 nodes through `symBlock` (theorem `euclKernel_block`: the same list)
+      if N ≤ 27 then showRatMat (toLists N (euclKernel id (mat (ratMat x)) d.toNat! N))
+      else showRatMat (symBlock N (fun i j => sumsq xm d.toNat! i j))
   -- `Grid.node_number`; `sqrt` replaced by the identity (theorem `gridNodeNumber_mono`)
   | ["gridnn", d, n, x, q] =>
       showOptNat (gridNodeNumber id (mat (ratMat x)) (vec (rats q)) d.toNat! n.toNat!)
+  -- round 5: `Grid.node_number` evaluated in IEEE double / single arithmetic in the order of the
+  -- source (`diff = space.T - x`, `diff**2`, `np.sum(axis=1)` as a left fold, `np.sqrt`, `argmin`)
+  -- round 5: the angular kernel in IEEE single precision; answers are float32 bit patterns
+  | ["cosangf32", n, sl, cl, sn, cn] =>
+      let N := n.toNat!
+      let a := ((rats sl).map toF32).toArray
+      let b := ((rats cl).map toF32).toArray
+      let c := ((rats sn).map toF32).toArray
+      let e := ((rats cn).map toF32).toArray
+      -- up to 16 nodes the block is read out of the filled matrix (the loop model itself), beyond
+      -- through `symBlock` (theorem `cosAngKernel_block`: the same list)
+      let m := if N ≤ 16 then
+          toLists N (cosAngKernel (fun i => a.getD i 0) (fun i => b.getD i 0)
+            (fun i => c.getD i 0) (fun i => e.getD i 0) N)
+        else symBlock N (fun i j => clamp (cosExpr (fun i => a.getD i 0) (fun i => b.getD i 0)
+            (fun i => c.getD i 0) (fun i => e.getD i 0) i j))
+      if m.isEmpty then "-" else
+        join (m.map fun r => join (r.map fun x => toString x.toBits)) ";"
+  | ["gridnnf", d, n, x, q] =>
+      showOptNat (gridNodeNumber Float.sqrt (mat (floatMat x)) (vec (floats q)) d.toNat! n.toNat!)
+  | ["gridnnf32", d, n, x, q] =>
+      showOptNat (gridNodeNumber Float32.sqrt (mat ((ratMat x).map (·.map toF32)))
+        (vec ((rats q).map toF32)) d.toNat! n.toNat!)
   | ["rect", axes] =>
       let r := rectGrid (intMat axes)
       if r.isEmpty then "-" else join (r.map showOptInts) ";"
